@@ -94,7 +94,7 @@ func (p *Prog) lemmaObligation(f *GlobalFact) (o *Obligation, err error) {
 	facts = append(facts, vc.base...)
 	facts = append(facts, st.facts...)
 	for _, a := range p.con.Facts {
-		if a.Kind == "axiom" {
+		if a.Kind == "axiom" && !a.Hidden {
 			aenv := &SpecEnv{vc: vc, st: st, old: st, vars: map[string]Term{}, pkg: vc.pkg}
 			if pk, ok := p.pkgs[a.Pkg]; ok {
 				aenv.pkg = pk.Types
